@@ -43,6 +43,9 @@ def gen(rng, i, tier):
         spec = G.scale_currents(spec, 10 ** rng.uniform(-6, 5))  # uA-class ... kA-class systems
     case = {"spec": spec, "tol": 1e-9 if tight else 1e-6, "ta": 25.0}
     case.update(_rows.random_call_context(rng))
+    if spec.get("name") == "mux" and rng.random() < 0.5:
+        # mux-centred layouts (often running from a non-first input) are assembled with reports in between
+        case["history"] = "analysed_while_built"
     return case
 
 
